@@ -22,6 +22,13 @@ pub struct Inst {
     /// non-empty they replace `k`/`p_with_k` (families whose cost grows too fast in either).
     pub pk_quick: Vec<(u32, u32)>,
     pub pk_thorough: Vec<(u32, u32)>,
+    /// Not explored in the ship build configuration (variants of an instance that already is).
+    pub no_ship: bool,
+    /// Explicit (preemptions, stale reads, spurious failures) for the small build per tier,
+    /// replacing the defaults of the size class (and the ship-build plan of the thorough tier):
+    /// for instances whose cost grows too fast with the default thorough bounds.
+    pub bounds_quick: Option<(u32, u32, u32)>,
+    pub bounds_thorough: Option<(u32, u32, u32)>,
     /// An additional exploration of the first plan under model M3L with this many stale reads
     /// (families whose regular plans have none, but where one stale read is the whole point).
     pub m3l_stale: Option<u32>,
